@@ -329,6 +329,11 @@ func c20Parts(c *core.Case) {
 				if ast.Keys[i].Form == gen.KeyQuoted {
 					name = ast.Keys[i].Expr.Str
 				}
+				if gen.Chance(r, 0.4) {
+					// property names are templates too: interpolation, directives, escapes
+					name = gen.Pick(r, []string{"%{ if f }yes%{ else }no%{ endif }", "k%%{x}", "${t}-k", "$${lit}", "%{ for v in [1, 2] }r${v}%{ endfor }", "%{ if !f }a%{ endif }b", "p%{~ if f } q %{~ endif }"}) + fmt.Sprint(i)
+					c.Count("parts:json-template-key")
+				}
 				parts = append(parts, gen.JSONQuote(nil, name)+": "+q)
 			} else {
 				parts = append(parts, q)
